@@ -7,6 +7,7 @@ import (
 	"go/constant"
 	"go/token"
 	"sort"
+	"strconv"
 	"strings"
 	"unicode/utf8"
 
@@ -25,6 +26,7 @@ func checkC06(p *Prog, r *Report) {
 	ruleC06Comment(p, a, r)
 	ruleC06TemplateTag(p, a, r)
 	ruleC06Verbatim(p, a, r)
+	ruleC06Redispatch(p, a, r)
 }
 
 // R-C06-EOF: the value the lexer's next() returns at the end of the input lies outside the domain of runes.
@@ -554,6 +556,109 @@ func ruleC06Verbatim(p *Prog, a *Anchors, r *Report) {
 	for _, e := range p.Callers(p.CG, tok) {
 		if e.Site.Parent() != run {
 			r.Bad("tokenize:caller "+p.FuncName(e.Site.Parent()), p.InstrPos(e.Site), "tokenize() is called outside the lexer's run loop")
+		}
+	}
+}
+
+// R-C06-REDISPATCH: after the lexer enters or leaves verbatim mode, no rune is consumed before the
+// delimiters have been looked for again at the new position, i.e. control returns to the top of the scanning loop.
+// (Otherwise the character right after `{% verbatim %}` / `{% endverbatim %}` is skipped unexamined: an empty
+// verbatim block never finds its end and a second verbatim block right after the first is taken for a tag.)
+func ruleC06Redispatch(p *Prog, a *Anchors, r *Report) {
+	r.Begin("R-C06-REDISPATCH", "after every switch into or out of verbatim mode the scanning loop restarts at its head (all delimiters re-examined at the new position) before another rune is consumed", 2)
+	run := p.Method("lexer", "run")
+	next := p.Method("lexer", "next")
+	if run == nil || next == nil {
+		r.Unk("anchor", "-", "anchor unresolved: (*lexer).run / next")
+		return
+	}
+	setsMode := map[*ssa.Function]bool{}
+	var storesMode func(f *ssa.Function, depth int) bool
+	storesMode = func(f *ssa.Function, depth int) bool {
+		if f == nil || f.Blocks == nil || depth > 2 {
+			return false
+		}
+		if v, ok := setsMode[f]; ok {
+			return v
+		}
+		setsMode[f] = false
+		for _, b := range f.Blocks {
+			for _, in := range b.Instrs {
+				if st, ok := in.(*ssa.Store); ok && isFieldAddrOf(st.Addr, "lexer", "inVerbatim") {
+					setsMode[f] = true
+				}
+				if c, ok := in.(ssa.CallInstruction); ok && f != run {
+					if storesMode(c.Common().StaticCallee(), depth+1) {
+						setsMode[f] = true
+					}
+				}
+			}
+		}
+		return setsMode[f]
+	}
+	var switches, consumes []ssa.Instruction
+	for _, b := range run.Blocks {
+		for _, in := range b.Instrs {
+			if st, ok := in.(*ssa.Store); ok && isFieldAddrOf(st.Addr, "lexer", "inVerbatim") {
+				switches = append(switches, in)
+			}
+			if c, ok := in.(ssa.CallInstruction); ok {
+				callee := c.Common().StaticCallee()
+				if callee == next {
+					consumes = append(consumes, in)
+				} else if callee != nil && callee != run && p.InPkg(callee) && storesMode(callee, 1) {
+					switches = append(switches, in)
+				}
+			}
+		}
+	}
+	if len(consumes) == 0 {
+		r.Unk("run:consume", p.Pos(run.Pos()), "no direct call of next() in the scanning loop: the rule's consumption points are not identifiable")
+		return
+	}
+	for i, sw := range switches {
+		// innermost natural-loop header dominating the switch
+		var hdr *ssa.BasicBlock
+		for _, h := range run.Blocks {
+			if !h.Dominates(sw.Block()) {
+				continue
+			}
+			back := false
+			for _, pr := range h.Preds {
+				if h.Dominates(pr) {
+					back = true
+				}
+			}
+			if back && (hdr == nil || hdr.Dominates(h)) {
+				hdr = h
+			}
+		}
+		key := "run:mode-switch#" + strconv.Itoa(i)
+		if st, ok := sw.(*ssa.Store); ok {
+			if c, ok := st.Val.(*ssa.Const); ok && c.Value != nil && c.Value.Kind() == constant.Bool {
+				key = "run:leave-verbatim"
+				if constant.BoolVal(c.Value) {
+					key = "run:enter-verbatim"
+				}
+			}
+		} else if c, ok := sw.(ssa.CallInstruction); ok && c.Common().StaticCallee() != nil {
+			key = "run:mode-switch via " + c.Common().StaticCallee().Name()
+		}
+		if hdr == nil {
+			r.Unk(key, p.InstrPos(sw), "verbatim mode is switched outside a loop")
+			continue
+		}
+		first := hdr.Instrs[0]
+		ok := true
+		for _, c := range consumes {
+			if !MustPassFrom(sw.Block(), instrIndex(sw)+1, c, func(x ssa.Instruction) bool { return x == first }) {
+				ok = false
+				r.Bad(key, p.InstrPos(sw), "after this switch of verbatim mode the loop goes on to consume a rune (next() at %s) without re-examining the input at the new position: an end/start tag directly behind it is missed (empty or adjacent verbatim blocks fail to compile)", p.InstrPos(c))
+				break
+			}
+		}
+		if ok {
+			r.OK(key, p.InstrPos(sw), "control returns to the head of the scanning loop before the next rune is consumed")
 		}
 	}
 }
